@@ -651,6 +651,9 @@ func treadmillJobs(cs []string, add func(kind, id string, w int, s map[string]st
 		case "rbt":
 			add("treadmill", "treadmill.rbt", 20, map[string]string{"c": c}, map[string]int{"w": 10})
 			add("treadmill", "treadmill.rbt.rev", 20, map[string]string{"c": c, "cmp": "rev"}, map[string]int{"w": 5})
+		case "arraylist", "singlylinkedlist", "doublylinkedlist":
+			add("treadmill", "treadmill."+c, 20, map[string]string{"c": c}, map[string]int{"w": 6})
+			add("treadmill", "treadmill."+c+".lifo", 20, map[string]string{"c": c}, map[string]int{"w": 6, "lifo": 1})
 		case "treebidimap", "hashbidimap":
 			add("treadmill", "treadmill."+c, 20, map[string]string{"c": c}, map[string]int{"w": 6})
 			add("treadmill", "treadmill."+c+".revalue", 20, map[string]string{"c": c}, map[string]int{"w": 6, "revalue": 1})
